@@ -265,6 +265,7 @@ def run(ctx):
     list_item_extent_covers_printer(ctx, "R03-i")
     import_grouping_is_a_partition(ctx, "R03-j")
     single_line_bodies_have_no_comment(ctx, "R03-k")
+    doc_openers_are_recognised_as_the_lexer_does(ctx, "R03-l")
     D = r.rule("R03-d", "lists::write_list (with the closures it owns) reads every comment-bearing field of ListItem: "
                         "pre_comment, pre_comment_style, post_comment, new_lines")
     wl = p.named("write_list", within="rustfmt_nightly::lists")
@@ -645,3 +646,58 @@ def single_line_bodies_have_no_comment(ctx, rid):
                     "%d of %d paths that return `{ stmt }` never saw block_contains_comment(block) = false (nor a predicate implying "
                     "it): comments between the braces but outside the statement vanish" % (bad, n), ["%s:%d" % (f.file, f.line)])
     r.floor(rid, n, 1, "collapsing paths of single_line_fn")
+
+
+def doc_openers_are_recognised_as_the_lexer_does(ctx, rid):
+    """R03-l / R01-v: comment_style calls a comment a doc comment only when rustc's lexer does"""
+    import re
+    p, r = ctx.p, ctx.r
+    r.rule(rid, "comment::comment_style decides which opener a rewritten comment gets; with normalize_comments a block comment is "
+                "rewritten with `//`-style openers, so answering TripleSlash / Doc *creates* a `///` / `//!` line. rustc's lexer "
+                "takes `///` for a doc comment unless a fourth `/` follows, and `/**` unless `*` or `/` follows (`/*** x */` and "
+                "`/**/` are plain comments). Decision table over the prefix tests of every path that returns TripleSlash: the "
+                "path decided (`///` ∧ the fourth character is not `/`) or (`/**` ∧ ¬`/**/` ∧ ¬`/***`). A path that accepts "
+                "`/**` without excluding `/***` turns the plain comment `/*** x */` into the doc comment `/// * x` — a doc "
+                "attribute the program did not have")
+    f = p.named("comment_style", within="rustfmt_nightly::comment")
+    if f is None:
+        r.undecidable(rid, "comment::comment_style not found")
+        return
+    try:
+        paths = explore(f, pure=lambda c: True, max_paths=20000)
+    except TooManyPaths as e:
+        r.undecidable(rid, str(e))
+        return
+    r.paths(rid, len(paths))
+    n = 0
+    bad = {}
+    for pa in paths:
+        if pa.end != "ret" or pa.ret is None or vkey(pa.ret) != "TripleSlash":
+            continue
+        pre = {}
+        fourth = None
+        for k, v in pa.decisions:
+            m = re.search(r"starts_with\(arg1,\"([^\"]*)\"\)$", k)
+            if m and isinstance(v, bool):
+                pre[m.group(1)] = v
+            if "Iterator::nth(" in k and "chars(arg1),3)" in k and isinstance(v, bool):
+                fourth = v
+        line = pre.get("///") is True and fourth is True
+        block = pre.get("/**") is True and pre.get("/**/") is False and pre.get("/***") is False
+        infeasible = (pre.get("///") is True and pre.get("/**") is True) or (pre.get("/**") is True and pre.get("/*") is False) \
+            or (pre.get("/**/") is True and pre.get("/**") is False) or (pre.get("/***") is True and pre.get("/**") is False)
+        if infeasible:
+            continue
+        n += 1
+        ok = line or block
+        key = "comment_style → TripleSlash under {%s%s}" % (", ".join("%s%s" % ("" if v else "¬", k) for k, v in sorted(pre.items())),
+                                                            "" if fourth is None else (", 4th≠/" if fourth else ", 4th=/"))
+        r.cells(rid, 1)
+        r.instance(rid, key, "ok" if ok else "violation", "%s:%d" % (f.file, f.line))
+        if not ok:
+            bad[key] = True
+    for key in sorted(bad)[:3]:
+        r.violation(rid, key, "a comment is given the `///` opener on a path that has not excluded the plain-comment spellings "
+                              "`////…` / `/***…` / `/**/`: with normalize_comments `/*** x */` becomes the doc comment `/// * x`",
+                    ["%s:%d" % (f.file, f.line)])
+    r.floor(rid, n, 2, "feasible paths of comment_style that answer TripleSlash")
